@@ -367,5 +367,5 @@ LiveElems(hbx, blkx) ==
         Sum(T) == IF T = {} THEN 0 ELSE LET b == CHOOSE b \in T : TRUE IN Len(blkx[b]) + Sum(T \ {b})
     IN Sum(bs)
 View == <<hb, blk, Len(hist), hz>>
-Emit == PrintT(ToJson([hist |-> hist', exp |-> ObsOf(hb', blk'), live |-> LiveElems(hb', blk'), hz |-> hz']))
+Emit == PrintT(ToJson([hist |-> hist', exp |-> ObsOf(hb', blk'), live |-> LiveElems(hb', blk'), hz |-> hz', nv |-> Cardinality(V)]))
 ===============================================================================
